@@ -139,6 +139,12 @@ func (w *watchers) handlersCore() []*hdlr {
 			upd: func(old, new client.Object) {
 				cmChange(new)
 			},
+			del: func(o client.Object) {
+				// a removed ConfigMap configures nothing, just like an emptied one
+				cm := o.(*api.ConfigMap).DeepCopy()
+				cm.Data = nil
+				cmChange(cm)
+			},
 			pr: []predicate.Predicate{
 				predicate.NewPredicateFuncs(func(o client.Object) bool {
 					cm := o.(*api.ConfigMap)
